@@ -368,6 +368,55 @@ func init() {
 			if !restored {
 				r.Fail("checkpointID-restore", lc.Decl.Pos(), nil, "LoadCheckpoint no longer restores the checkpoint id counter: after a restart ids start again at 1 and collide with stored checkpoints")
 			}
+			// ... on EVERY path that installs a loaded checkpoint (savepoint branch and directory scan alike)
+			completed := r.P.Field("storage/snapshots", "storeState", "completedSnapshots")
+			var loadedVar types.Object // the local `var loaded *JobCheckpoint` that starts nil
+			ast.Inspect(lc.Decl.Body, func(nd ast.Node) bool {
+				if ds, ok := nd.(*ast.DeclStmt); ok && loadedVar == nil {
+					if gd, ok := ds.Decl.(*ast.GenDecl); ok {
+						for _, sp := range gd.Specs {
+							if vs, ok := sp.(*ast.ValueSpec); ok && len(vs.Values) == 0 && len(vs.Names) == 1 {
+								if _, isPtr := lc.Pkg.TypesInfo.Defs[vs.Names[0]].Type().(*types.Pointer); isPtr {
+									loadedVar = lc.Pkg.TypesInfo.Defs[vs.Names[0]]
+								}
+							}
+						}
+					}
+				}
+				return true
+			})
+			spec := &pathsim.Spec{
+				Atom: func(c *pathsim.Ctx, e ast.Expr) (int, bool, bool) {
+					if x, notNil, ok := pathsim.IsNilCompare(c.Info, e); ok && loadedVar != nil && prog.IdentObj(c.Info, x) == loadedVar {
+						return 0, notNil, true // atom 0: loaded == nil
+					}
+					return 0, false, false
+				},
+				Step: func(c *pathsim.Ctx, st pathsim.State, ev *pathsim.Event) []pathsim.State {
+					switch ev.Kind {
+					case pathsim.EvAssign:
+						for _, l := range ev.Lhs {
+							if prog.SelField(c.Info, l) == ckID {
+								st.A = 1
+							}
+							if prog.SelField(c.Info, l) == completed {
+								st.B = 1
+							}
+						}
+						return []pathsim.State{st}
+					case pathsim.EvReturn, pathsim.EvExit:
+						if st.B == 1 && st.A == 0 {
+							c.Violate(ev.Pos, "[checkpointID-restore-path] LoadCheckpoint installs a loaded checkpoint as the completed snapshot on this path without setting the id counter from it: the next checkpoint or savepoint re-uses an id that is already stored (e.g. after a restore from a savepoint)")
+						}
+					}
+					return nil
+				},
+			}
+			if loadedVar != nil {
+				spec.AtomDeps = map[int][]types.Object{0: {loadedVar}}
+				spec.Init.V[0] = pathsim.True
+			}
+			r.Sim(lc.Decl, lc.Name()+":checkpointID-restore-path", spec)
 		}})
 
 	register(&Obligation{ID: "C12.e", Props: []string{"C12", "C13"}, Template: "who-may",
